@@ -154,17 +154,21 @@ theorem inv_startBody (s : St) (h : Inv s) (hs : s.state = .created) : Inv (star
   have hres : s.result = none := result_none_of_nonterminal s h (by simp [hs])
   have hch : s.child = .none := h.created hs
   unfold startBody
-  by_cases hm : s.tool = .missing
-  · simp only [hm, if_true]
+  by_cases hm : launchFails s.tool = true
+  · rw [if_pos hm]
+    simp only
     have hc := cleanUp_cancelled { s with cwdChanged := false, state := .cancelled } rfl
     obtain ⟨h1, h2, h3, h4, h5, h6, _, _, _⟩ := hc
     constructor <;> simp_all [Clean, AppState.terminal]
-  · simp only [hm, if_false]
-    split
-    · obtain ⟨f1, f2, f3, f4, f5, f6, f7, f8, f9⟩ :=
+  · rw [if_neg hm]
+    simp only
+    by_cases he : exited { s with cwdChanged := false, child := .alive } = true
+    · rw [if_pos he]
+      obtain ⟨f1, f2, f3, f4, f5, f6, f7, f8, f9⟩ :=
         waitExit_frame { s with cwdChanged := false, child := .alive }
       constructor <;> simp_all [Clean, AppState.terminal]
-    · constructor <;> simp_all [Clean, AppState.terminal]
+    · rw [if_neg he]
+      constructor <;> simp_all [Clean, AppState.terminal]
 
 theorem inv_joinLocal (s : St) (t : Bool) (h : Inv s) (hs : s.state = .running ∨ s.state = .finished)
     (hw : s.w ≠ .base) : Inv (joinLocal s t).1 := by
@@ -319,8 +323,13 @@ theorem joinTail_res (s : St) : (joinTail s).2 ≠ .err .stateError := by
     rcases evaluate_err s e he with h | h <;> simp [h, errSubprocess, errEval]
   | ok r => simp
 
+theorem errLaunch_ne (t : Tool) : errLaunch t ≠ .stateError := by
+  cases t <;> simp [errLaunch]
+
 theorem startBody_res (s : St) : (startBody s).2 ≠ .err .stateError := by
-  unfold startBody; split <;> simp [errLaunch]
+  unfold startBody; split
+  · simpa using errLaunch_ne s.tool
+  · simp
 
 theorem joinLocal_res (s : St) (t : Bool) : (joinLocal s t).2 ≠ .err .stateError := by
   unfold joinLocal
